@@ -88,3 +88,33 @@ def workdir(name):
     os.makedirs(d, exist_ok=True)
     os.utime(root, None)
     return d
+
+
+_ICE_PROBE = r"""
+#include <type_traits>
+constexpr bool w() noexcept { return std::is_constant_evaluated(); }
+int main() { if(w()) return 1; return 0; }
+"""
+_ice_cache = {}
+
+
+def cell_miscompiles_is_constant_evaluated(cell):
+    """clang 14 in -std=c++2b takes `if(wrapper_of_is_constant_evaluated())` at run time (if-consteval bug).  Cells whose
+    toolchain fails this probe cannot run code that branches on std::is_constant_evaluated(); pre-C++20 cells pass trivially."""
+    if cell in _ice_cache:
+        return _ice_cache[cell]
+    if cell[1] in ("c++11", "c++14", "c++17"):
+        _ice_cache[cell] = False
+        return False
+    d = workdir("toolchain-probe")
+    src = os.path.join(d, "ice_%s.cpp" % cell_name(cell))
+    exe = os.path.join(d, "ice_%s" % cell_name(cell))
+    with open(src, "w") as fh:
+        fh.write(_ICE_PROBE)
+    rc, _ = sh([cell[0], "-std=" + cell[1], "-O0", src, "-o", exe])
+    bad = False
+    if rc == 0:
+        rc2, _ = sh([exe])
+        bad = rc2 != 0
+    _ice_cache[cell] = bad
+    return bad
